@@ -110,7 +110,8 @@ Print Assumptions C17_import_is_inlining_partial.
 (* full statement (not proved in general): for every module, what an import contributes is the
    renaming of the reachable part of the module loaded on its own *)
 Definition rename_def (f : string -> string) (d : defn) : defn :=
-  mkDef (f (d_name d)) (d_term d) (option_map (rename_tree f) (d_tree d)) (map f (d_params d)) (d_opts d).
+  mkDef (f (d_name d)) (d_term d) (option_map (rename_tree f) (d_tree d)) (map f (d_params d))
+        (match d_opts d with ORule k e p (Some _) => ORule k e p (Some (f (d_name d))) | o => o end).
 Definition C17_import_is_inlining_full_statement : Prop :=
   forall f fs g ls b p al ms b' gb0,
     lookup_module p fs = Some ms ->
@@ -234,17 +235,21 @@ Example C17_example :
                d_tree d = Some (alts [[ref false "m__t"; ref false "m__t"]])).
 Proof. eexists. split. vm_compute. reflexivity. vm_compute. repeat split. eexists. repeat split. Qed.
 
-(* REFUTED part of "what textual inlining means": the tree label of the instances of an imported
-   template (RuleOptions.template_source) is NOT renamed with the template: instances of m__f are
-   labelled "f" - the label of the unrelated local rule f.  Replayed on the implementation by the
-   exotic stream of harness/props/C17.py. *)
-Theorem C17_template_label_refuted :
-  exists fs main b d,
-    load_and_validate 8 fs false main = Ok b /\
+(* the tree label of the instances of an imported template (RuleOptions.template_source) is renamed
+   with the template (lark fix bb8205d; before it the label stayed "f" and clashed with the label of
+   the unrelated local rule f - regression case of the exotic stream in harness/props/C17.py) *)
+Theorem C17_template_label_renamed l ls d k e p :
+  d_term d = false -> d_opts d = ORule k e p (Some (d_name d)) ->
+  d_opts (mangle_def (l :: ls) d) = ORule k e p (Some (d_name (mangle_def (l :: ls) d))).
+Proof. exact (template_label_renamed l ls d k e p). Qed.
+Print Assumptions C17_template_label_renamed.
+
+Example C17_template_label_example :
+  exists b d,
+    load_and_validate 8 ex_fs false ex_main = Ok b /\
     find_def "m__f" (b_defs b) = Some d /\ d_params d <> [] /\
-    d_opts d = ORule false false None (Some "f") /\ defined "f" (b_defs b) = true.
+    d_opts d = ORule false false None (Some "m__f") /\ defined "f" (b_defs b) = true.
 Proof.
-  exists ex_fs, ex_main. eexists. eexists. split. vm_compute. reflexivity.
+  eexists. eexists. split. vm_compute. reflexivity.
   vm_compute. repeat split. discriminate.
 Qed.
-Print Assumptions C17_template_label_refuted.
